@@ -253,6 +253,26 @@ impl<E, M> From<SyncEvent<E>> for StreamEvent<M> {
 #[error("an error occurred during sync: {0}")]
 pub struct SyncError(String);
 
+/// Verification hook: feed sync events into a fresh aggregator and return `(running sessions, total
+/// bytes sent, total bytes received)` after every event.
+#[cfg(p2panda_p2panda_verif)]
+pub fn verif_sync_metrics_totals(
+    events: Vec<FromSync<TopicLogSyncEvent<()>>>,
+) -> Vec<(u32, u32, u32)> {
+    let mut aggregator = Aggregator::new();
+    events
+        .into_iter()
+        .map(|event| {
+            aggregator.process(event);
+            (
+                aggregator.running_sessions(),
+                aggregator.total_bytes_sent(),
+                aggregator.total_bytes_received(),
+            )
+        })
+        .collect()
+}
+
 #[cfg(test)]
 mod tests {
     use p2panda_net::NodeId;
